@@ -399,7 +399,23 @@ def rand_array(sr, rng, sym=None, ndim=None, fermionic=False, maxnd=4, **kw):
     maxc = kw.pop("maxc", 3)
     maxd = kw.pop("maxd", 3)
     idx = [rand_index(sr, rng, sym, maxc=maxc, maxd=maxd) for _ in range(ndim)]
+    share_index_objects(rng, idx)
     return make_array(sr, rng, sym, idx, fermionic=fermionic, **kw)
+
+
+P_SHARED_INDEX = 0.08
+
+
+def share_index_objects(rng, idx, protect=()):
+    """In a share of the calls put ONE index object on two (or three) legs - as happens when a
+    user builds a tensor from `[ix] * n` or reuses a bond index. `protect`: positions to leave."""
+    free = [k for k in range(len(idx)) if k not in protect]
+    if len(free) >= 2 and rng.random() < P_SHARED_INDEX:
+        ks = rng.sample(free, min(len(free), rng.choice([2, 2, 3])))
+        for k in ks[1:]:
+            idx[k] = idx[ks[0]]
+        EXOTIC_SEEN["shared-index-object"] = EXOTIC_SEEN.get("shared-index-object", 0) + 1
+    return idx
 
 
 def contractible_pair(sr, rng, sym, fermionic, na=None, nb=None, ncon=None, maxnd=3, values=None, **kw):
@@ -417,6 +433,7 @@ def contractible_pair(sr, rng, sym, fermionic, na=None, nb=None, ncon=None, maxn
     maxd = kw.pop("maxd", 3)
     ikw = {k: kw.pop(k) for k in ("minc", "p_single") if k in kw}
     ia = [rand_index(sr, rng, sym, maxc=maxc, maxd=maxd, **ikw) for _ in range(na)]
+    share_index_objects(rng, ia)
     axes_a = rng.sample(range(na), ncon)
     axes_b = rng.sample(range(nb), ncon)
     ib = [None] * nb
